@@ -941,7 +941,7 @@ def report(run, names, independent, fam, h, chk, singles_names=None):
 # main
 # =================================================================================================
 
-DEPTH = {"quick": (3, 3), "thorough": (5, 4)}  # (single-entry histories, two-class interleavings)
+DEPTH = {"quick": (3, 3), "thorough": (4, 4)}  # (single-entry histories, two-class interleavings)
 
 PAIRS = [
     # (A, B, independent?)  independent pairs share no handler-cache key
